@@ -14,7 +14,7 @@ TEXT = {
     'C01': ('E1+E2', 'bounded model checking of the real code: one operation from every invariant state (all front positions x lengths x garbage bytes) with unconstrained arguments, return value and contents compared with a reference deque; closure probe makes one step inductive over histories. Decided by the SAT solver for N <= 4 (quick) / 6 (thorough).', 'symbolic execution of the compiled crate (Kani/CBMC) vs reference model'),
     'C02': ('E1+E2', 'bounded model checking: push_*/try_push_* from every invariant state; identity of the returned/stored element and absence of destructor runs asserted; N = 0 included.', 'symbolic execution (Kani/CBMC) with identity tokens'),
     'C03': ('E1', 'bounded model checking: ownership conservation (every created object in exactly one place: buffer, caller, destroyed once) after each operation and after the final drop, for all layouts/garbage/arguments and all consumption scripts of drains and owning iterators.', 'symbolic execution (Kani/CBMC) with ownership ledger'),
-    'C04': ('E1+E2', 'bounded model checking of non-interference: two buffers with equal contents but independent layout and independent solver-chosen bytes in unoccupied slots; every observation must coincide and every visible element must be live; Eq/Hash/Debug harnesses with symbolic garbage; after a caught panic the same liveness is decided on the MIR with its unwind edges.', 'two-run non-interference query (Kani/CBMC) + MIR-level liveness after panics'),
+    'C04': ('E1+E2', 'bounded model checking of non-interference: two buffers with equal contents but independent layout and independent solver-chosen bytes in unoccupied slots; every observation must coincide and every visible element must be live; Eq/Hash/Debug harnesses with symbolic garbage, Debug of a partly consumed Drain; after a caught panic the same liveness is decided on the MIR with its unwind edges.', 'two-run non-interference query (Kani/CBMC) + MIR-level liveness after panics'),
     'C05': ('E2', 'bounded model checking of the MIR with its unwind edges: symbolic state, argument and index of the panicking destructor call; post-condition at the modelled catch_unwind (no second drop, valid live distinct elements) and after the translated buffer destructor. Encoding validated against the real crate on thousands of concrete panicking runs per run.', 'MIR -> C with explicit unwinding -> CBMC, symbolic crash point'),
     'C06': ('E2', 'as C05 with the fault in Clone / closure / iterator, plus the no-leak obligation; Guard::drop and other cleanup-only code is executed on the unwind edge.', 'MIR -> C with explicit unwinding -> CBMC, symbolic crash point'),
     'C07': ('E1', 'bounded model checking: all accessors compared by element identity and address at a symbolic position and at every position; mutable accessors chosen symbolically, write-through effect compared with the model.', 'symbolic execution (Kani/CBMC), address comparison'),
@@ -28,7 +28,7 @@ TEXT = {
     'C16': ('E1', 'the C14 scenario instantiated through embedded_io and embedded_io_async (polled once, must be Ready) in the three feature configurations, against the same byte model, plus pairwise against std::io on twin buffers.', 'symbolic execution (Kani/CBMC) per feature configuration'),
     'C17': ('E1', 'unreachability of the allocator entry points (stubbed to panic) for all scenario families, in the three configurations {no default features, alloc, std}; sensitivity witnesses (to_vec, boxed) must hit the stub; Kani having to compile each configuration decides the build clause.', 'allocator-stub unreachability (Kani/CBMC)'),
     'C18': ('E1+E2', 'the functional scenario families re-run with the unstable feature against the same oracle, and the panic scenarios on the MIR dumped with the feature.', 'second configuration through both engines'),
-    'C19': ('E1+E2', 'E1: ZST buffers at capacities up to usize::MAX, front positions just below the capacity, one symbolic operation; E2: add_mod (and sub_mod in the thorough tier) for all 64-bit inputs against 128-bit arithmetic.', 'Kani at extreme const capacities + full-width arithmetic query'),
+    'C19': ('E1+E2', 'E1: ZST buffers at capacities up to usize::MAX, front positions just below the capacity, one symbolic operation (including Debug of the buffer and of a partly consumed Drain); E2: add_mod (and sub_mod in the thorough tier) for all 64-bit inputs against 128-bit arithmetic.', 'Kani at extreme const capacities + full-width arithmetic query'),
     'C20': ('E1', 'bounded model checking: addresses of surviving elements (by identity) before/after each operation; relocation counts bounded as documented.', 'symbolic execution (Kani/CBMC), address comparison'),
 }
 
